@@ -33,13 +33,17 @@ OPEN_STATEMENTS = [
     'covered here by the oracle against the operator built from the tensors by the checker',
     'matvec_sound (matvec_term_sound + matvec_linear), diagonal_term_sound and parallel_matvec_sound are proved at the '
     'level stated in Properties/C06.lean (per term resp. per entry); diagonal_sound covers the sum over the terms',
-    'truncated boson matrices: boson_term_sound_partial relates the Model column (amplitude sqrt(R)) of a word that '
-    'does not hit the cut-off to the polynomial Spec up to diag(sqrt(n!)); the cut-off, the index arithmetic, the '
-    'float sum over terms and the QuadOperator route are numeric correspondence only',
+    'truncated boson matrices: every column of a ladder word is proved against the truncated polynomial Spec, cut-off '
+    'branch and mixed-radix index arithmetic included (boson_column_sound, boson_truncation_restricts, '
+    'boson_index_bijection, boson_term_sound_partial), up to diag(sqrt(n!)) stated without square roots; the float '
+    'sum over terms with sqrt amplitudes and the QuadOperator route (q, p as combinations of ladder matrices) are '
+    'numeric correspondence only',
     'expectation / variance: proved for the Model\'s sparse-matrix form (expectation_vec_sound, '
     'expectation_density_sound, expectation_pure_consistent, variance_def, second_moment_hermitian_only) and tied '
-    'to the source by an exact correspondence run on the implementation\'s own matrices; LinearOperator '
-    'arguments and eigenspectrum / sparse_eigenspectrum (scipy eigensolvers) are numeric correspondence only',
+    'to the source by an exact correspondence run on the implementation\'s own matrices; is_hermitian(sparse '
+    'matrix) and with it the eigvalsh / eigvals choice of sparse_eigenspectrum are modelled, proved '
+    '(is_hermitian_sparse_sound, eigenspectrum_route_sound) and compared exactly; the eigenvalues themselves '
+    '(LAPACK), the dense-array branch of is_hermitian and LinearOperator arguments are numeric correspondence only',
     'OS-level behaviour of multiprocessing.Pool (fork, pickling, worker death) is not expressible',
 ]
 
@@ -662,6 +666,23 @@ def stream_boson(ctx):
     return st
 
 
+def model_is_hermitian(ctx, st, M, case):
+    """exact correspondence of is_hermitian(sparse matrix) with Model.C06.isHermitianMat on the matrix's own
+    (dyadic) entries and the live EQ_TOLERANCE"""
+    import openfermion.config as cfg
+    Mc = M.tocoo()
+    ents = [[int(r_), int(c_), to_gq(complex(v_))] for r_, c_, v_ in zip(Mc.row, Mc.col, Mc.data)]
+    tol = Fraction(cfg.EQ_TOLERANCE).limit_denominator(10 ** 12)
+    ans = ctx.driver.one({'op': 'c06.is_hermitian', 'dim': int(M.shape[0]), 'entries': ents,
+                          'tol': [tol.numerator, tol.denominator]})
+    kind, got = safe(ctx.of.is_hermitian, M)
+    st.count('model-is_hermitian:%s' % bool(ans))
+    if kind == 'err':
+        st.violate('is_hermitian(sparse matrix) raised', case, got)
+    elif bool(got) != bool(ans):
+        st.disagree('is_hermitian(sparse matrix)', case, bool(got), bool(ans))
+
+
 # ---------------------------------------------------------------- expectation / variance / eigenspectrum
 
 def stream_numeric(ctx):
@@ -788,6 +809,8 @@ def stream_numeric(ctx):
         if M.shape != (dim, dim):
             st.violate('shape', case, M.shape)
             continue
+        if cls != 'boson':
+            model_is_hermitian(ctx, st, M, case)
         states = []
         e0 = numpy.zeros(dim, dtype=complex)
         e0[rng.randrange(dim)] = 1
@@ -916,6 +939,7 @@ def stream_numeric(ctx):
         if kind == 'err':
             st.violate('get_sparse_operator raised', case, M)
             continue
+        model_is_hermitian(ctx, st, M, case)
         for name, f in (('is_hermitian(sparse matrix)', lambda: of.is_hermitian(M)),
                         ('is_hermitian(dense matrix)', lambda: of.is_hermitian(M.toarray()))):
             kind, got = safe(f)
@@ -941,6 +965,7 @@ def stream_numeric(ctx):
         kind, M = safe(of.get_sparse_operator, op)
         st.count('is_hermitian:hermitian')
         if kind == 'ok':
+            model_is_hermitian(ctx, st, M, {'a': enc_op('qubit', op.terms)})
             for name, f in (('is_hermitian(sparse matrix)', lambda: of.is_hermitian(M)),
                             ('is_hermitian(dense matrix)', lambda: of.is_hermitian(M.toarray()))):
                 kind2, got = safe(f)
